@@ -92,6 +92,24 @@ def check_state(run, cx, cfg):
         kinds = set()
         for p in ps:
             loops = iterator_loops(p)
+            fe = foreach_assignments(cx, p) if not loops else []
+            if len(fe) == 1 and p['end'] == 'return':
+                # frames.iter_mut().for_each(|f| *f = EQUILIBRIUM): same obligations without an explicit loop
+                it, val, _k = fe[0]
+                src = p['events'][it[1]] if it[0] == 'ret' else None
+                sf = [(k, e) for k, e in call_events(p) if rp(e) == FX + 'set_first']
+                if not src or rp(src) != FX + 'iter_mut' or src['args'][0] != ('ref', self_loc(fi)):
+                    bad = 'must iterate frames.iter_mut() (every slot)'
+                elif not (val[0] == 'assoc' and val[2] == 'EQUILIBRIUM'):
+                    bad = 'each slot must be set to EQUILIBRIUM'
+                elif heap_writes(p).get(self_loc(ii)) != ('int', 0, 'usize'):
+                    bad = 'must set idx = 0'
+                elif len(sf) != 1 or sf[0][1]['args'] != [('ref', self_loc(fi)), ('int', 0, 'usize')]:
+                    bad = 'must call frames.set_first(0)'
+                kinds.update(('slot', 'end'))
+                if bad:
+                    break
+                continue
             if len(loops) != 1:
                 bad = 'expected one loop over the buffer'
                 break
